@@ -13,6 +13,7 @@
 -/
 import NngModel.Model.Rep
 import NngModel.Model.RawMq
+import NngModel.Generated.C04REP
 namespace Nng.Xrep
 open Nng Nng.Proto Nng.RawMq
 
